@@ -2046,3 +2046,178 @@ Qed.
 
 Lemma ex_floats_ascii : floats_ascii ex_json.
 Proof. repeat constructor. Qed.
+
+(* ================================================================================================ *)
+(** * 13. A whole call: write_meta — canonical JSON, encoded, LF-terminated in the effective encoding *)
+
+Lemma guess_json_text : forall r,
+  guess_line_endings_text (123%N :: 10%N :: r) = (GenText.le_unix, nl_text GenText.le_unix).
+Proof.
+  intros r. unfold guess_line_endings_text.
+  change (nl_text GenText.le_unix) with [10%N]. change (nl_text GenText.le_dos) with [13%N; 10%N].
+  reflexivity.
+Qed.
+
+Lemma unix_newline_format : assoc_get beq GenText.le_unix GenText.newline_formats = Some (nl_text GenText.le_unix).
+Proof. vm_compute. reflexivity. Qed.
+
+Theorem C02_meta_call : forall s kv enc fmt s',
+  do_call (WriteMeta (WDict (JObj kv)) enc fmt) s = (s', Ok tt) ->
+  exists d e eb cb newline fmtv h,
+    kv <> [] /\ json_dump (JObj kv) = Ok d /\
+    eff_enc s enc true = Ok (WStr e) /\ c_enc ascii e = Some eb /\
+    py_encode (ascii_text d) eb = Ok cb /\
+    get_newline_for_type GenText.le_unix (Some eb) = Ok newline /\
+    let body := add_newline newline cb in
+    render_header (build_id (cur_level s) (B "meta"))
+      (content_opts body (WStr (ascii_text GenText.le_unix)) enc WNone false [(B "format", fmtv)]) = Ok h /\
+    w_out s' = w_out s ++ h ++ body.
+Proof.
+  intros s kv enc fmt s' H. cbn [do_call] in H.
+  destruct (negb (wv_truthy (WDict (JObj kv)))) eqn:Etr; [inversion H|].
+  assert (Hkv : kv <> []) by (intros ->; discriminate Etr).
+  rewrite WriterFacts.bind_lift in H.
+  destruct (in_strset _ _) as [fok|e1]; [|inversion H].
+  destruct (negb fok); [inversion H|].
+  rewrite WriterFacts.bind_lift in H.
+  destruct (json_dump (JObj kv)) as [d|e1] eqn:Ed; [|inversion H].
+  apply C02_length_exact in H. destruct H as (body & le_out & h & Hprep & Hh & _ & Ho & _ & _).
+  apply prepare_content_unfold in Hprep.
+  destruct Hprep as (enc1 & nl0 & nb & cb & H1 & H2 & H3 & H4 & _ & H6).
+  (* the JSON text starts with "{" LF, so the detected line ending is unix *)
+  assert (Hd : exists r, ascii_text d = 123%N :: 10%N :: r).
+  { unfold json_dump in Ed. rewrite dump_obj in Ed by exact Hkv.
+    destruct (dump_members 0 kv); [|discriminate Ed]. apply Ok_inj in Ed. subst d.
+    eexists. unfold ascii_text. rewrite !map_app. reflexivity. }
+  destruct Hd as (r & Hr).
+  unfold choose_newline in H2. cbn [declared_newline] in H2. rewrite Hr, guess_json_text in H2.
+  apply Ok_inj in H2. injection H2 as <- <-.
+  cbn [encode_newline] in H3. apply encode_dyn_ok in H3. destruct H3 as (e & eb & -> & Heb & Hpy).
+  cbn [encode_content] in H4. unfold encode_dyn in H4. rewrite Heb in H4.
+  unfold finish_content in H6. cbn [wv_truthy] in H6. apply Ok_inj in H6. subst body.
+  cbn [enc1_name] in *. rewrite Heb in *.
+  exists d, e, eb, cb, (strip_bom nb (Some eb)).
+  eexists. exists h. split; [exact Hkv|]. split; [reflexivity|]. split; [exact H1|]. split; [exact Heb|].
+  split; [exact H4|]. split.
+  - unfold get_newline_for_type, enc_or_ascii. rewrite unix_newline_format, Hpy. reflexivity.
+  - cbv zeta. split; [exact Hh|exact Ho].
+Qed.
+
+(* ================================================================================================ *)
+(** * 14. Diff sections (bytes content): the terminating newline is get_newline_for_type of the line-ending
+       kind named in the header and the section's own encoding (diffs never inherit; none => ascii) *)
+
+Lemma strip_bom_no_entry : forall e x,
+  assoc_get beq (canonical_or_same e) GenText.boms = None -> strip_bom x (Some e) = x.
+Proof. intros e x H. unfold strip_bom. rewrite H. reflexivity. Qed.
+
+Lemma ascii_no_bom :
+  assoc_get beq (canonical_or_same (B "ascii")) GenText.boms = None /\
+  assoc_get beq (canonical_or_same []) GenText.boms = None.
+Proof. split; vm_compute; reflexivity. Qed.
+
+(* what get_newline_for_type returns is BOM-free: stripping again changes nothing (all names, all spellings) *)
+Definition strip_idem_ok (le : bytes) (enc : option bytes) : bool :=
+  match get_newline_for_type le enc with Ok nl => beq (strip_bom nl enc) nl | Err _ => true end.
+
+Lemma strip_idem_b :
+  forallb (fun le => forallb (fun r => strip_idem_ok le (Some (GenCodecs.cr_spelling r))) GenCodecs.rows)
+          (map fst GenText.newline_formats) = true.
+Proof. vm_compute. reflexivity. Qed.
+
+Lemma model_newline_strip_idem : forall le eb nl,
+  get_newline_for_type le (Some eb) = Ok nl -> strip_bom nl (Some eb) = nl.
+Proof.
+  intros le eb nl H.
+  assert (Hok : strip_idem_ok le (Some eb) = true).
+  { pose proof strip_idem_b as Hall. rewrite forallb_forall in Hall.
+    destruct (assoc_get beq le GenText.newline_formats) as [t|] eqn:Ele.
+    2:{ unfold get_newline_for_type in H. rewrite Ele in H. discriminate H. }
+    specialize (Hall le (TextFacts.assoc_get_beq_in le _ t Ele)).
+    destruct (find_row eb GenCodecs.rows) as [r|] eqn:F.
+    - apply TextFacts.find_row_some in F. destruct F as [Hin ->]. rewrite forallb_forall in Hall. exact (Hall r Hin).
+    - unfold get_newline_for_type, enc_or_ascii, py_encode, lookup_codec in H. rewrite Ele, F in H. discriminate H. }
+  unfold strip_idem_ok in Hok. rewrite H in Hok. apply HeaderFacts.beq_spec. exact Hok.
+Qed.
+
+Lemma gnft_unfold : forall lename nl eb nb,
+  assoc_get beq lename GenText.newline_formats = Some nl -> py_encode nl eb = Ok nb ->
+  get_newline_for_type lename (Some eb) = Ok (strip_bom nb (Some eb)).
+Proof. intros lename nl eb nb H1 H2. unfold get_newline_for_type, enc_or_ascii. rewrite H1, H2. reflexivity. Qed.
+
+Lemma falsy_encoding : forall e1, wv_truthy e1 = false ->
+  newline_encoding_of e1 = WStr (ascii_text (B "ascii")) /\ forall x, strip_bom x (enc1_name e1) = x.
+Proof.
+  intros e1 H. unfold newline_encoding_of. rewrite H. split; [reflexivity|]. intros x.
+  destruct e1; cbn [enc1_name]; try reflexivity.
+  cbn [wv_truthy] in H. destruct t; [|discriminate H]. cbn. apply strip_bom_no_entry. apply ascii_no_bom.
+Qed.
+
+Lemma dos_newline_format : assoc_get beq GenText.le_dos GenText.newline_formats = Some (nl_text GenText.le_dos).
+Proof. vm_compute. reflexivity. Qed.
+
+Lemma guess_bytes_spec : forall b en p, guess_line_endings_bytes b en = Ok p ->
+  In (fst p) (map fst GenText.newline_formats) /\ get_newline_for_type (fst p) en = Ok (snd p).
+Proof.
+  intros b en p H. unfold guess_line_endings_bytes in H. step_bind H. step_bind H.
+  assert (Hu : get_newline_for_type GenText.le_unix en = Ok (strip_bom a (Some (enc_or_ascii en)))).
+  { unfold get_newline_for_type. rewrite unix_newline_format, E. reflexivity. }
+  assert (Hd : get_newline_for_type GenText.le_dos en = Ok (strip_bom a0 (Some (enc_or_ascii en)))).
+  { unfold get_newline_for_type. rewrite dos_newline_format, E0. reflexivity. }
+  destruct (bfind _ b); [destruct (bends _ _)|]; apply Ok_inj in H; subst p; cbn [fst snd];
+    (split; [apply le_guess_names|assumption]).
+Qed.
+
+Theorem C02_bytes_section_newline : forall s b indent le enc inherit body le_out,
+  prepare_content s (CBytes b) indent le enc inherit = Ok (body, le_out) ->
+  exists encoding1 eb lename newline,
+    eff_enc s enc inherit = Ok encoding1 /\
+    (if wv_truthy encoding1 then exists e, encoding1 = WStr e /\ c_enc ascii e = Some eb else eb = B "ascii") /\
+    In lename (map fst GenText.newline_formats) /\
+    le_out = WStr (ascii_text lename) /\ (declared_newline le <> None -> le_out = le) /\
+    get_newline_for_type lename (Some eb) = Ok newline /\
+    newline <> [] /\ TextFacts.unbordered newline /\
+    bends newline body = true.
+Proof.
+  intros s b indent le enc inherit body le_out H.
+  destruct (C02_content_ends_with_newline _ _ _ _ _ _ _ _ H) as (e1 & nl0 & nb & H1 & H2 & H3 & H4).
+  assert (Hmain : exists eb lename,
+            (if wv_truthy e1 then exists e, e1 = WStr e /\ c_enc ascii e = Some eb else eb = B "ascii") /\
+            In lename (map fst GenText.newline_formats) /\
+            le_out = WStr (ascii_text lename) /\ (declared_newline le <> None -> le_out = le) /\
+            get_newline_for_type lename (Some eb) = Ok (strip_bom nb (enc1_name e1))).
+  { unfold choose_newline in H2. destruct (declared_newline le) as [nl|] eqn:Ed.
+    - step_bind H2. apply Ok_inj in H2. injection H2 as <- <-. cbn [encode_newline] in H3. apply Ok_inj in H3. subst a.
+      assert (Hle : exists lename, le = WStr (ascii_text lename) /\ assoc_get beq lename GenText.newline_formats = Some nl).
+      { unfold declared_newline in Ed. destruct le; try discriminate Ed.
+        destruct (c_enc ascii t) as [lename|] eqn:Ec; [|discriminate Ed]. apply enc_ascii_spec in Ec.
+        destruct Ec as [-> _]. eauto. }
+      destruct Hle as (lename & Hle & Hnl).
+      apply encode_dyn_ok in E. destruct E as (e' & eb' & Hne & Heb' & Hpy).
+      exists eb', lename. destruct (wv_truthy e1) eqn:Et.
+      + unfold newline_encoding_of in Hne. rewrite Et in Hne. subst e1.
+        split; [eauto|]. split; [eapply TextFacts.assoc_get_beq_in; exact Hnl|]. split; [exact Hle|].
+        split; [reflexivity|]. cbn [enc1_name]. rewrite Heb'. eapply gnft_unfold; eassumption.
+      + destruct (falsy_encoding e1 Et) as [Hn Hs]. rewrite Hn in Hne. injection Hne as <-.
+        assert (eb' = B "ascii") by (vm_compute in Heb'; congruence). subst eb'.
+        split; [reflexivity|]. split; [eapply TextFacts.assoc_get_beq_in; exact Hnl|]. split; [exact Hle|].
+        split; [reflexivity|]. rewrite Hs. rewrite (gnft_unfold _ _ _ _ Hnl Hpy).
+        rewrite strip_bom_no_entry by apply ascii_no_bom. reflexivity.
+    - step_bind H2. step_bind H2. apply Ok_inj in H2. injection H2 as <- <-.
+      cbn [encode_newline] in H3. apply Ok_inj in H3. subst nb.
+      destruct (guess_bytes_spec _ _ _ E0) as [Hin Hg].
+      destruct (wv_truthy e1) eqn:Et.
+      + unfold newline_encoding_of in E. rewrite Et in E. unfold enc_name in E.
+        destruct e1; try discriminate E; try discriminate Et.
+        destruct (c_enc ascii t) as [eb|] eqn:Heb; [|discriminate E]. apply Ok_inj in E. subst a.
+        exists eb, (fst a0). split; [eauto|]. split; [exact Hin|]. split; [reflexivity|]. split; [congruence|].
+        cbn [enc1_name]. rewrite Heb. rewrite (model_newline_strip_idem _ _ _ Hg). exact Hg.
+      + destruct (falsy_encoding e1 Et) as [Hn Hs]. rewrite Hn in E.
+        assert (a = Some (B "ascii")) by (vm_compute in E; congruence). subst a.
+        exists (B "ascii"), (fst a0). split; [reflexivity|]. split; [exact Hin|]. split; [reflexivity|].
+        split; [congruence|]. rewrite Hs. exact Hg. }
+  destruct Hmain as (eb & lename & Ha & Hb & Hc & Hd & Hg).
+  exists e1, eb, lename, (strip_bom nb (enc1_name e1)).
+  destruct (TextFacts.model_newlines_unbordered _ _ _ Hg) as [Hne Hu].
+  repeat (split; [assumption|]). exact H4.
+Qed.
